@@ -7,7 +7,7 @@ import sys
 
 NCHUNK = 16
 MODES = ['INT', 'REF', 'CREF', 'RREF', 'PTR', 'VAL', 'UPV', 'UPR']
-PTYPE = {'INT': 'int', 'REF': 'Cnt&', 'CREF': 'const Cnt&', 'RREF': 'Cnt&&', 'PTR': 'Cnt*', 'VAL': 'Cnt', 'UPV': 'std::unique_ptr<int>', 'UPR': 'std::unique_ptr<int>&&'}
+PTYPE = {'CREFRET': 'const Cnt&', 'RVRET': 'Cnt2&&', 'INT': 'int', 'REF': 'Cnt&', 'CREF': 'const Cnt&', 'RREF': 'Cnt&&', 'PTR': 'Cnt*', 'VAL': 'Cnt', 'UPV': 'std::unique_ptr<int>', 'UPR': 'std::unique_ptr<int>&&'}
 
 
 def others_cond(n, p):
@@ -21,7 +21,7 @@ def emit(n, p, mode, kind):
     types = ['int'] * n
     if n:
         types[p - 1] = PTYPE[mode]
-    ret = 'Cnt&' if mode == 'REF' else 'int'
+    ret = 'Cnt&' if mode == 'REF' else ('const Cnt&' if mode == 'CREFRET' else ('Cnt2' if mode == 'RVRET' else 'int'))
     sig = '%s(%s)' % (ret, ', '.join(types))
     wild = ', '.join(['trompeloeil::_'] * n)
     decl = []
@@ -95,6 +95,18 @@ def emit(n, p, mode, kind):
                      '    int r = %s.f(%s);' % (callobj, ', '.join(args)),
                      chk('by-value parameter: exactly the one copy the caller makes', 'Cnt::copies', 1), chk('no moves', 'Cnt::moves', 0), chk('WITH and SIDE_EFFECT see the same parameter object', '(int)(a1 == a2 && a1 != &arg)', 1),
                      chk('RETURN sees the side effect\'s write to the parameter', 'r', 1), chk('caller\'s object untouched', 'arg.v', v), '  }']
+        elif mode == 'CREFRET':
+            body.insert(-1 if False else len(body), '  Cnt carg(%d); Cnt::reset();' % v)
+            args[p - 1] = 'carg'
+            body += ['  { REQUIRE_CALL(m, f(%s)).WITH(%s).RETURN(_%d);' % (wild, oc, p),
+                     '    const Cnt& r = %s.f(%s);' % (callobj, ', '.join(args)),
+                     chk('const reference returned from a const& parameter aliases the caller\'s object', '(int)(&r == &carg)', 1), chk('no copies', 'Cnt::copies', 0), '  }']
+        elif mode == 'RVRET':
+            body.insert(len(body), '  Cnt2 rarg(%d); Cnt2::reset();' % v)
+            args[p - 1] = 'std::move(rarg)'
+            body += ['  { REQUIRE_CALL(m, f(%s)).WITH(%s).RETURN(std::move(_%d));' % (wild, oc, p),
+                     '    Cnt2 r = %s.f(%s);' % (callobj, ', '.join(args)),
+                     chk('RETURN(std::move(_p)) moves the rvalue argument out (value)', 'r.v', v), chk('not copied although the move constructor is not noexcept', 'Cnt2::copies', 0), chk('caller\'s object was moved from', 'rarg.v', -1), '  }']
         elif mode == 'UPV':
             args[p - 1] = 'std::move(up)'
             body += ['  std::unique_ptr<int> up(new int(%d)), taken;' % v,
@@ -125,6 +137,9 @@ def main():
             if p in (1, n):
                 for kind in ('const', 'overload', 'iface'):
                     for mode in ('INT', 'REF'):
+                        items.append((n, p, mode, kind))
+                for mode in ('CREFRET', 'RVRET'):
+                    for kind in ('plain', 'const', 'iface'):
                         items.append((n, p, mode, kind))
     names = []
     table = []
